@@ -1073,6 +1073,9 @@ def run(ctx):
     _run_specific(ctx)
     from ..rules import generic
     generic.apply(ctx, "C02", stale_modules=())
+    generic.attribute_membership(ctx, "C02-F2", "mesh.mesh_data", "the filtered rebuild of the edge container keeps an attribute value only when "
+                                 "`old index in attribute` holds: with a dense (array) edge attribute the test compares the index with the stored "
+                                 "values, so surviving edges lose their values when an invalid edge is dropped")
 
 
 def _generic_rule_texts():
@@ -1081,3 +1084,5 @@ def _generic_rule_texts():
 
 
 RULES.update(_generic_rule_texts())
+RULES["C02-F2"] = ("R-MEMBER: a membership test `k in A` on an attribute object means `element k has an entry` for both storage classes "
+                   "(each defines __contains__ over element indices, or iterates over indices)")
